@@ -13,6 +13,7 @@ import (
 
 // rawCase emits one line of a non-ctxop kind; f returns the text after "=>".
 func (rn *runner) rawCase(kind, input string, nontrivial bool, tag string, f func() string) {
+	rn.snapCheck(false)
 	res := guarded(func() callResult {
 		return callResult{panic: "", d: nil, err: nil, aux: 0, res: 0, hang: false, text: f()}
 	})
@@ -257,6 +258,21 @@ func (rn *runner) streamOrder(g *gen) {
 			z = g.variant(c, x)
 		}
 		rn.orderCase(x, y, z)
+		if i%25 == 0 {
+			// zeros (and one non-zero value against zeros) with exponents anywhere in int32: the total order
+			// ranks equal values by exponent, whatever the distance between the exponents
+			es := []int64{math.MaxInt32, math.MinInt32, 1500000000, -1500000000, 1 << 30, -(1 << 30), 0, 1, -1, 100000, -100000}
+			mkz := func() *apd.Decimal {
+				d := apd.New(0, int32(es[g.r.Intn(len(es))]))
+				d.Negative = g.r.Intn(2) == 0
+				return d
+			}
+			a, b, cc := mkz(), mkz(), mkz()
+			if g.r.Intn(4) == 0 {
+				cc = apd.New(int64(g.r.Intn(9)+1), int32(g.r.Intn(7)-3))
+			}
+			rn.orderCase(a, b, cc)
+		}
 	}
 }
 
